@@ -876,17 +876,23 @@ time_zone::civil_lookup TimeZoneInfo::TimeLocal(const civil_second& cs,
                                                 year_t c4_shift) const {
   assert(last_year_ - 400 < cs.year() && cs.year() <= last_year_);
   time_zone::civil_lookup cl = MakeTime(cs);
-  if (c4_shift > seconds::max().count() / kSecsPer400Years) {
-    cl.pre = cl.trans = cl.post = time_point<seconds>::max();
-  } else {
-    const auto offset = seconds(c4_shift * kSecsPer400Years);
-    const auto limit = time_point<seconds>::max() - offset;
-    for (auto* tp : {&cl.pre, &cl.trans, &cl.post}) {
-      if (*tp > limit) {
-        *tp = time_point<seconds>::max();
-      } else {
-        *tp += offset;
-      }
+  const std::int_fast64_t max_time = seconds::max().count();
+  for (auto* tp : {&cl.pre, &cl.trans, &cl.post}) {
+    std::int_fast64_t t = ToUnixSeconds(*tp);
+    year_t n = c4_shift;
+    if (t < 0) {
+      // First move a negative time into [0, kSecsPer400Years) (or as far as
+      // the shift allows), so that the remaining count alone decides whether
+      // the result saturates, without overflow in (n * kSecsPer400Years).
+      const year_t k = std::min<year_t>(n, -(t + 1) / kSecsPer400Years + 1);
+      t += k * kSecsPer400Years;
+      n -= k;
+    }
+    if (n > max_time / kSecsPer400Years ||
+        t > max_time - n * kSecsPer400Years) {
+      *tp = time_point<seconds>::max();
+    } else {
+      *tp = FromUnixSeconds(t + n * kSecsPer400Years);
     }
   }
   return cl;
